@@ -30,7 +30,7 @@ pub struct RawCommand<'a> {
 
 impl<'a> Clone for RawCommand<'a> {
     fn clone(&self) -> Self {
-//@ ensures r == *self,   // [C01,~C07,~C08,~C12]
+//@ ensures r == *self,   // [~C01,~C07,~C08,~C12]
         RawCommand { name: self.name, args: self.args.clone() }
     }
 }
@@ -57,17 +57,17 @@ impl<'a> RawCommand<'a> {
     }
 
     pub fn new(name: &'a str, args: ArgList<'a>) -> Self {
-//@ ensures r.name_bytes() == name.spec_bytes(), r.arg_tokens() == args.tokens(),   // [C01,~C07,~C08,~C12]
+//@ ensures r.name_bytes() == name.spec_bytes(), r.arg_tokens() == args.tokens(),   // [~C01,~C07,~C08,~C12]
         Self { name, args }
     }
 
     pub fn args(&self) -> ArgList<'a> {
-//@ ensures r.tokens() == self.arg_tokens(),   // [C01,~C07,~C08,~C12]
+//@ ensures r.tokens() == self.arg_tokens(),   // [~C01,~C07,~C08,~C12]
         self.args.clone()
     }
 
     pub fn name(&self) -> &'a str {
-//@ ensures r.spec_bytes() == self.name_bytes(),   // [C01,~C07,~C08,~C12]
+//@ ensures r.spec_bytes() == self.name_bytes(),   // [~C01,~C07,~C08,~C12]
         self.name
     }
 
